@@ -443,8 +443,10 @@ func RunConn(c *Ctx, w *simrt.World, sp *ConnSpec) *ConnOutcome {
 	for i := 0; i < sp.ExtraHandshakers; i++ {
 		i := i
 		w.Go(fmt.Sprintf("%s.hs%d", sp.Name, i), func() {
-			for !o.prepDone && !o.clientGone {
-				simrt.WaitSteps(2) // enabled only once two more scheduler steps were granted: no busy loop
+			// (enabled only once two more scheduler steps were granted: no busy loop; bounded, so that a
+			// client stuck before its handshake is seen by the deadlock detector)
+			if !simrt.Poll(func() bool { return o.prepDone || o.clientGone }, 4000) {
+				return
 			}
 			if i < len(sp.ExtraDelay) {
 				simrt.WaitSteps(sp.ExtraDelay[i])
